@@ -197,41 +197,42 @@ impl Context {
             let ghost h1 = *h;
 //@@ proof after=parent#1
                         let ghost h2 = *h;
-                        let ghost mut sib_done: bool = false;
-//@@ proof after=siblings#1
+                        let ghost mut first_done: bool = false;
+//@@ proof after=children#1
                         proof {
                             reveal(Heap::wf);
                             assert(*h == h2);
-                            assert(Some(parent.id@) == parent_tid(task.id@));
-                            assert forall|i: int| 0 <= i < open@.len() implies h.tasks[(#[trigger] open@[i]).id@].seq > h.tasks[parent.id@].seq by {
-                                assert(h.has(open@[i].id@) && h.tasks[open@[i].id@].prev == Some(parent.id@));
+                            assert(h2.tasks[parent.id@].seq < h2.tasks[task.id@].seq);
+                            assert forall|i: int| 0 <= i < open@.len() implies h.tasks[(#[trigger] open@[i]).id@].seq > h.tasks[task.id@].seq by {
+                                assert(h.has(open@[i].id@) && h.tasks[open@[i].id@].prev == Some(task.id@));
                             }
-                            assert(tids(open@).to_set() == children_of(h2, parent.id@).remove(task.id@));
-                            assert(h2.st(task.id@) is Error);
+                            assert(tids(open@).to_set() == children_of(h2, task.id@));
                         }
 //@@ loop 1
         invariant
-            //# closing-level-by-level-what-is-open-beside-the-failed-task (the failed task and the parent it is about to fail stay as they are)
+            //# closing-level-by-level-what-is-open-beneath-the-failed-task (the failed task and the parent it is about to fail stay as they are)
             tasks_ok(*h, open@) && fwd(h1, *h) && fwd(h2, *h) && h.cur == old(h).cur && task.id@ == old(h).cur && wf_task(*h, *task) && wf_task(*h, *parent)
-                && h.tasks[parent.id@] == h2.tasks[parent.id@] && h.tasks[task.id@] == h2.tasks[task.id@] && h2.has(parent.id@) && h2.has(task.id@) && h2.wf() && h2.st(task.id@) is Error
-                && (forall|i: int| 0 <= i < open@.len() ==> h.tasks[(#[trigger] open@[i]).id@].seq > h.tasks[parent.id@].seq)
-                && (!sib_done ==> tids(open@).to_set() == children_of(h2, parent.id@).remove(task.id@))
-                && (sib_done ==> forall|c: Tid| children_of(h2, parent.id@).contains(c) && c != task.id@ ==> st_terminal(#[trigger] h.st(c))),
+                && h.tasks[parent.id@] == h2.tasks[parent.id@] && h.tasks[task.id@] == h2.tasks[task.id@] && h2.has(parent.id@) && h2.has(task.id@) && h2.wf()
+                && h2.tasks[parent.id@].seq < h2.tasks[task.id@].seq
+                && (forall|i: int| 0 <= i < open@.len() ==> h.tasks[(#[trigger] open@[i]).id@].seq > h.tasks[task.id@].seq)
+                && (!first_done ==> tids(open@).to_set() == children_of(h2, task.id@))
+                && (first_done ==> forall|c: Tid| children_of(h2, task.id@).contains(c) ==> st_terminal(#[trigger] h.st(c))),
 //@@ loop 2
         invariant
             //# one-level
             tasks_ok(*h, __v2@) && tasks_ok(*h, nexts@) && fwd(h1, *h) && fwd(h2, *h) && h.cur == old(h).cur && task.id@ == old(h).cur && wf_task(*h, *task) && wf_task(*h, *parent)
-                && h.tasks[parent.id@] == h2.tasks[parent.id@] && h.tasks[task.id@] == h2.tasks[task.id@] && h2.has(parent.id@) && h2.has(task.id@) && h2.wf() && h2.st(task.id@) is Error
-                && (forall|i: int| 0 <= i < __v2@.len() ==> h.tasks[(#[trigger] __v2@[i]).id@].seq > h.tasks[parent.id@].seq)
-                && (forall|i: int| 0 <= i < nexts@.len() ==> h.tasks[(#[trigger] nexts@[i]).id@].seq > h.tasks[parent.id@].seq)
+                && h.tasks[parent.id@] == h2.tasks[parent.id@] && h.tasks[task.id@] == h2.tasks[task.id@] && h2.has(parent.id@) && h2.has(task.id@) && h2.wf()
+                && h2.tasks[parent.id@].seq < h2.tasks[task.id@].seq
+                && (forall|i: int| 0 <= i < __v2@.len() ==> h.tasks[(#[trigger] __v2@[i]).id@].seq > h.tasks[task.id@].seq)
+                && (forall|i: int| 0 <= i < nexts@.len() ==> h.tasks[(#[trigger] nexts@[i]).id@].seq > h.tasks[task.id@].seq)
                 && (forall|j: int| 0 <= j < __i2 ==> st_terminal(h.st((#[trigger] __v2@[j]).id@)))
-                && (!sib_done ==> tids(__v2@).to_set() == children_of(h2, parent.id@).remove(task.id@))
-                && (sib_done ==> forall|c: Tid| children_of(h2, parent.id@).contains(c) && c != task.id@ ==> st_terminal(#[trigger] h.st(c))),
+                && (!first_done ==> tids(__v2@).to_set() == children_of(h2, task.id@))
+                && (first_done ==> forall|c: Tid| children_of(h2, task.id@).contains(c) ==> st_terminal(#[trigger] h.st(c))),
 //@@ proof after=vec_extend#1
                                 proof {
                                     reveal(Heap::wf);
                                     assert forall|i: int| 0 <= i < nexts@.len() implies h.has((#[trigger] nexts@[i]).id@) && h.tasks[nexts@[i].id@].node == nexts@[i].node && nexts@[i].node.level < 0x4000_0000
-                                        && h.tasks[nexts@[i].id@].seq > h.tasks[parent.id@].seq by {
+                                        && h.tasks[nexts@[i].id@].seq > h.tasks[task.id@].seq by {
                                         assert(h.has(t.id@));
                                     }
                                 }
@@ -239,9 +240,9 @@ impl Context {
                                 let ghost hb = *h;
                                 proof {
                                     assert(t.id@ == __v2@[__i2 as int - 1].id@);
-                                    assert(hb.tasks[t.id@].seq > hb.tasks[parent.id@].seq);
-                                    assert(t.id@ != parent.id@);
+                                    assert(hb.tasks[t.id@].seq > hb.tasks[task.id@].seq);
                                     assert(t.id@ != task.id@);
+                                    assert(t.id@ != parent.id@);
                                 }
 //@@ proof after=emit_task#2
                                 proof {
@@ -251,14 +252,14 @@ impl Context {
                                     assert forall|j: int| 0 <= j < __i2 implies st_terminal(h.st((#[trigger] __v2@[j]).id@)) by {
                                         if __v2@[j].id@ != t.id@ { assert(h.tasks[__v2@[j].id@] == hb.tasks[__v2@[j].id@]); }
                                     }
-                                    assert forall|i: int| 0 <= i < __v2@.len() implies h.tasks[(#[trigger] __v2@[i]).id@].seq > h.tasks[parent.id@].seq by {
+                                    assert forall|i: int| 0 <= i < __v2@.len() implies h.tasks[(#[trigger] __v2@[i]).id@].seq > h.tasks[task.id@].seq by {
                                         if __v2@[i].id@ != t.id@ { assert(h.tasks[__v2@[i].id@] == hb.tasks[__v2@[i].id@]); }
                                     }
-                                    assert forall|i: int| 0 <= i < nexts@.len() implies h.tasks[(#[trigger] nexts@[i]).id@].seq > h.tasks[parent.id@].seq by {
+                                    assert forall|i: int| 0 <= i < nexts@.len() implies h.tasks[(#[trigger] nexts@[i]).id@].seq > h.tasks[task.id@].seq by {
                                         if nexts@[i].id@ != t.id@ { assert(h.tasks[nexts@[i].id@] == hb.tasks[nexts@[i].id@]); }
                                     }
-                                    if sib_done {
-                                        assert forall|c: Tid| children_of(h2, parent.id@).contains(c) && c != task.id@ implies st_terminal(#[trigger] h.st(c)) by {
+                                    if first_done {
+                                        assert forall|c: Tid| children_of(h2, task.id@).contains(c) implies st_terminal(#[trigger] h.st(c)) by {
                                             assert(h2.tasks.dom().contains(c));
                                             assert(h2.has(c));
                                             assert(fwd(h2, hb));
@@ -270,23 +271,22 @@ impl Context {
                                 }
 //@@ proof at=afterloop2
                             proof {
-                                if !sib_done {
-                                    assert forall|c: Tid| children_of(h2, parent.id@).contains(c) && c != task.id@ implies st_terminal(#[trigger] h.st(c)) by {
+                                if !first_done {
+                                    assert forall|c: Tid| children_of(h2, task.id@).contains(c) implies st_terminal(#[trigger] h.st(c)) by {
                                         assert(tids(__v2@).to_set().contains(c));
                                         let j = choose|j: int| 0 <= j < tids(__v2@).len() && tids(__v2@)[j] == c;
                                         assert(__v2@[j].id@ == c);
                                     }
                                 }
-                                sib_done = true;
+                                first_done = true;
                             }
 //@@ proof before=set_err#1
                         proof {
-                            //# H5-when-an-error-goes-on-to-the-parent-nothing-stays-open-beside-the-failed-task [C03]
-                            assert(forall|c: Tid| children_of(h2, parent.id@).contains(c) && c != task.id@ ==> st_terminal(#[trigger] h.st(c))) by {
-                                if !sib_done {
+                            //# H5-when-an-error-goes-on-to-the-parent-nothing-stays-open-beneath-the-failed-task [C03]
+                            assert(forall|c: Tid| children_of(h2, task.id@).contains(c) ==> st_terminal(#[trigger] h.st(c))) by {
+                                if !first_done {
                                     assert(open@.len() == 0);
-                                    assert forall|c: Tid| children_of(h2, parent.id@).contains(c) && c != task.id@ implies st_terminal(#[trigger] h.st(c)) by {
-                                        assert(children_of(h2, parent.id@).remove(task.id@).contains(c));
+                                    assert forall|c: Tid| children_of(h2, task.id@).contains(c) implies st_terminal(#[trigger] h.st(c)) by {
                                         assert(tids(open@).to_set().contains(c));
                                         assert(tids(open@).contains(c));
                                         let j = choose|j: int| 0 <= j < tids(open@).len() && tids(open@)[j] == c;
